@@ -29,7 +29,7 @@ func bi(s string) *big.Int { return new(big.Int).SetBytes(hx(s)) }
 //   - the three (static, ephemeral, shared point, 48-byte key) vectors carried by
 //     the library's own tests (sm2/sm2_keyexchange_test.go = ecdh/ecdh_test.go,
 //     identities "Alice"/"Bob");
-//   - the protocol identity U = V = [tA*tB]G (checked inside Run).
+//   - the protocol identity U = V (every Run) and U = [tA*tB]G (here).
 func SelfTest() error {
 	if err := ec.SelfTest(); err != nil {
 		return err
@@ -48,7 +48,7 @@ func SelfTest() error {
 		RB:  bi("7E071248 14B30948 9125EAED 10111316 4EBF0F34 58C5BD88 335C1F9D 596243D6"),
 		IDA: id, IDB: id, KLen: 16,
 	}
-	r, err := Run(s)
+	r, err := run(s, true)
 	if err != nil {
 		return err
 	}
@@ -96,7 +96,7 @@ func SelfTest() error {
 			"04f7e9f1447968b284ff43548fcec3752063ea386b48bfabb9baf2f9c1caa05c2fb12c2cca37326ce27e68f8cc6414c2554895519c28da1ca21e61890d0bc525c4",
 			"b18e78e5072f301399dc1f4baf2956c0ed2d5f52f19abb1705131b0865b079031259ee6c629b4faed528bcfa1c5d2cbc"},
 	} {
-		r, err := Run(Session{DA: bi(v[0]), RA: bi(v[1]), DB: bi(v[2]), RB: bi(v[3]), IDA: []byte("Alice"), IDB: []byte("Bob"), KLen: 48})
+		r, err := run(Session{DA: bi(v[0]), RA: bi(v[1]), DB: bi(v[2]), RB: bi(v[3]), IDA: []byte("Alice"), IDB: []byte("Bob"), KLen: 48}, true)
 		if err != nil {
 			return err
 		}
